@@ -38,6 +38,7 @@ import (
 	"strings"
 	"syscall"
 	"time"
+	"verifharness/lib/prodwt"
 
 	"verifharness/lib/ev"
 	"verifharness/lib/refenc"
@@ -121,6 +122,9 @@ func post(c *ev.Check, outs []*run.Outcome) {
 		c.Require("achieved."+k, 1)
 	}
 	c.Require("sigcut.recovered", 1)
+	if c.Counter("prodwt.no_network_namespace") == 0 {
+		c.Require("prodwt.crash.recovered", 1)
+	}
 	c.Require("ops.migrate_acked", 3)
 	c.Require("ops.storm_auth_acked", 3)
 }
@@ -137,6 +141,14 @@ func plan(tier string, seed int64) []run.Batch {
 		nh, sysSlices, bndHist, bndSlices, rndBatches, rndKills = 30, 3, 30, 1, 25, 40
 	}
 	add("sigcut", seed*1000+777, nil)
+	add("prodcrash", seed*1000+778, nil)
+	bs[len(bs)-1].N = 3
+	if tier == "thorough" {
+		for i := 0; i < 5; i++ {
+			add("prodcrash", seed*1000+779+int64(i), nil)
+			bs[len(bs)-1].N = 6
+		}
+	}
 	for h := 0; h < nh; h++ {
 		for k := 0; k < sysSlices; k++ {
 			add("sys", seed*1000+int64(h), map[string]string{"h": fmt.Sprint(h), "slice": fmt.Sprint(k), "of": fmt.Sprint(sysSlices)})
@@ -1401,6 +1413,11 @@ func censusOf(evs []sevent, srv, oplogPath string) map[int][]sevent {
 func child(b run.Batch, r *ev.Result) {
 	if b.Kind == "sigcut" {
 		childSigCut(b, r)
+		return
+	}
+	if b.Kind == "prodcrash" {
+		// SIGKILL of a running PRODUCTION-build server, then a start on its directory (lib/prodwt/crash.go)
+		prodwt.RunCrash(r, b, b.Seed, b.N)
 		return
 	}
 	exe, err := os.Executable()
